@@ -17,6 +17,7 @@ func init() {
 	vhRegister("vh_C02_threshold", vh_C02_threshold)
 	vhRegister("vh_C02_threshold_twin", vh_C02_threshold_twin)
 	vhRegister("vh_C10_threshold", vh_C10_threshold)
+	vhRegister("vh_C10_samekey", vh_C10_samekey)
 }
 
 // ---- model metadata ---------------------------------------------------------
@@ -245,6 +246,36 @@ func vh_C10_threshold(a []int) {
 	vReach("C10.end")
 }
 
+// vh_C10_samekey: two links that end up under the same key id - one filed under a functionary's key id and
+// authorized by the step's pubkeys, one filed under another id and attributed to the same functionary by the
+// certificate it carries.  Which of them is returned for that key id must not depend on the iteration order.
+// a = {}
+func vh_C10_samekey(a []int) {
+	layout := Layout{Type: "layout", Keys: map[string]Key{vhFID[0]: vhFKey(0), vhFID[1]: vhFKey(1)}}
+	layout.Steps = []Step{{Type: "step", Threshold: vInt("threshold", 0, 2), PubKeys: []string{vhFID[0], vhFID[1]}, SupplyChainItem: SupplyChainItem{Name: "s1"},
+		CertificateConstraints: []CertificateConstraint{{CommonName: "*"}}}}
+	own := &vhMeta{tag: "L0", payload: Link{Type: "link", Name: "s1"}, sigs: []Signature{{KeyID: vhFID[1], Sig: "00"}}}
+	other := vPick("filed-under", vhFID[0], vhFID[2], vhForged[0])
+	attributed := &vhMeta{tag: "L1", payload: Link{Type: "link", Name: "s1"}, sigs: []Signature{
+		{KeyID: other, Sig: "00", Certificate: vPick("sig.cert", "", vhFCert[0], vhFCert[1])},
+		{KeyID: vPick("sig.keyid", vhFID[1], vhFID[0]), Sig: "00"}}}
+	md := map[string]map[string]Metadata{"s1": {vhFID[1]: own, other: attributed}}
+	v1, e1 := VerifyLinkSignatureThesholds(layout, md, nil, nil)
+	v2, e2 := VerifyLinkSignatureThesholds(layout, md, nil, nil)
+	vObserve("samekey", e1 == nil, e2 == nil)
+	vAssert("C10.threshold-verdict-order-independent", (e1 == nil) == (e2 == nil))
+	if e1 == nil && e2 == nil {
+		same := len(v1["s1"]) == len(v2["s1"])
+		for k, m := range v1["s1"] {
+			if v2["s1"][k] != m {
+				same = false
+			}
+		}
+		vAssert("C10.counted-links-order-independent", same)
+	}
+	vReach("C10.end")
+}
+
 // vh_C02_foreignstep: authorization is per step.  Two steps with their own
 // pubkeys and their own certificate constraints; every link is signed by one
 // functionary (symbolic) and may carry a certificate; a link counts for a step
@@ -329,7 +360,7 @@ func vh_C02_certroute(a []int) {
 	vhRootPool, vhIntermPool = x509.NewCertPool(), x509.NewCertPool()
 	cdns := vhAttrList("c.dns", a[0])
 	dns := vhAttrList("cert.dns", a[1])
-	vhParseErr, vhParsedObj = false, &x509.Certificate{Subject: pkix.Name{CommonName: "a"}, DNSNames: dns}
+	vhParseErr, vhParsedObj = false, &x509.Certificate{Subject: pkix.Name{CommonName: "a"}, DNSNames: dns, NotBefore: vhNotBefore, NotAfter: vhNotAfter}
 	step := Step{Type: "step", Threshold: 1, SupplyChainItem: SupplyChainItem{Name: "s1"},
 		CertificateConstraints: []CertificateConstraint{{CommonName: "*", DNSNames: cdns, Emails: []string{"*"}, Organizations: []string{"*"}, Roots: []string{"*"}, URIs: []string{"*"}}}}
 	layout := Layout{Type: "layout", Steps: []Step{step}, Keys: map[string]Key{}, RootCas: map[string]Key{"r1": {KeyID: "r1"}}}
@@ -369,7 +400,7 @@ func vh_C02_certchain(a []int) {
 	}
 	layout.Steps = []Step{{Type: "step", Threshold: 1, SupplyChainItem: SupplyChainItem{Name: "s1"},
 		CertificateConstraints: []CertificateConstraint{{CommonName: "*", DNSNames: []string{"*"}, Emails: []string{"*"}, Organizations: []string{"*"}, Roots: []string{"*"}, URIs: []string{"*"}}}}}
-	vhParseErr, vhParsedObj = false, &x509.Certificate{Subject: pkix.Name{CommonName: "a"}}
+	vhParseErr, vhParsedObj = false, &x509.Certificate{Subject: pkix.Name{CommonName: "a"}, NotBefore: vhNotBefore, NotAfter: vhNotAfter}
 	root, inter, err := LoadLayoutCertificates(layout, nil)
 	if err != nil {
 		vObserve("certchain", false, false)
